@@ -10,7 +10,7 @@ except ImportError:  # pragma: no cover (python < 3.11)
     import sre_constants as sre_c
 
 from ..consteval import CantEval
-from ..index import dotted, walk_no_nested, loc
+from ..index import ancestors, dotted, walk_no_nested, loc
 from ..symeval import Obj, PureInterp, Raised, Unsupported, tok
 from .c03 import rule_norm_path
 from .persist import _calls
@@ -98,6 +98,13 @@ def rule_cwd_taint(ctx, r):
                 canon = c if c in ("os.curdir", "os.path.curdir") else None
             if canon in CWD_SOURCES:
                 n += 1
+                in_default = any(isinstance(a, ast.arguments) for a in ancestors(node) if a is not f.node) and any(
+                    node is d or node in list(ast.walk(d)) for d in list(f.node.args.defaults) + [d for d in f.node.args.kw_defaults if d is not None])
+                if in_default:
+                    r.violation(f"{f.module.relpath}::{f.qual}::{canon}@default", f"{f.qual} reads the invoking directory ({canon}) in a parameter default, which is evaluated once when "
+                                "the module is imported: the directory in effect at import time, not the one gwf is invoked from, decides which workflow is found",
+                                loc(node, f.module))
+                    continue
                 r.check(f.key in allowed, f"{f.module.relpath}::{f.qual}::{canon}", allowed.get(f.key, ""),
                         f"{f.qual} reads the invoking directory ({canon}): paths, graph or state location would depend on where gwf is started", loc(node, f.module))
             if canon in ("os.path.abspath", "os.path.relpath") and isinstance(node, ast.Call) and node.args:
@@ -110,6 +117,23 @@ def rule_cwd_taint(ctx, r):
                 r.check(joined or f.key in allowed, f"{f.module.relpath}::{f.qual}::{canon}", "abspath of a path joined to a working directory",
                         f"`{ast.unparse(node)[:70]}` resolves a path against the invoking directory (it is not joined to a project/target working directory first)",
                         loc(node, f.module))
+    # import-time reads (module level, class bodies): the directory at import is not the invoking directory of a later call
+    for mod in idx.repo.modules.values():
+        fn_nodes = set()
+        for fdef in ast.walk(mod.tree):
+            if isinstance(fdef, (ast.FunctionDef, ast.AsyncFunctionDef, ast.Lambda)):
+                for st in (fdef.body if isinstance(fdef.body, list) else [fdef.body]):
+                    fn_nodes.update(id(x) for x in ast.walk(st))
+        for node in ast.walk(mod.tree):
+            if id(node) in fn_nodes or not isinstance(node, (ast.Call, ast.Attribute)):
+                continue
+            tgt = node.func if isinstance(node, ast.Call) else node
+            if isinstance(tgt, (ast.Name, ast.Attribute)) and idx.canon(tgt, mod) in CWD_SOURCES and not any(
+                    isinstance(a, ast.arguments) for a in ancestors(node)):
+                if isinstance(node, ast.Attribute) and isinstance(getattr(node, "_parent", None), ast.Call) and node._parent.func is node:
+                    continue
+                r.violation(f"{mod.relpath}::<module>::{idx.canon(tgt, mod)}", "the invoking directory is read at import time (module level): later calls from another directory use a stale value",
+                            f"{mod.relpath}:{node.lineno}")
     # cli.main: everything derives from the found workflow file
     main = idx.func("gwf.cli:main")
     txt = ast.unparse(main.node)
